@@ -1,7 +1,7 @@
 """Per-property check plans (DESIGN.md section 5).  Every verdict is a TLC verdict on a trace or model."""
 import os
 from .common import *
-from .engine import Check, conf_mod, merge_by_run, renumber, API_MOD, API_CFG
+from .engine import Check, conf_mod, merge_by_run, split_by_family, renumber, API_MOD, API_CFG
 from . import build, tlc, scen
 
 Q, T = "quick", "thorough"
@@ -73,17 +73,20 @@ def conformance(pid, tier, seed):
             cfgs = SERPENT_CFGS
         # per-family effort (TLC cost per key schedule differs by orders of magnitude)
         if fam == "Blowfish":
-            kw = dict(keys=40 if thorough else 2, blocks=5 if thorough else 2, lens="all")
+            kw = dict(keys=80 if thorough else 2, blocks=5 if thorough else 2, lens="all")
         elif fam in ("Serpent", "Kuznyechik", "Threefish", "Gift"):
-            kw = dict(keys=80 if thorough else 4, blocks=10 if thorough else 3, lens="all")
+            kw = dict(keys=240 if thorough else 4, blocks=10 if thorough else 3, lens="all")
         elif fam == "RC2":
-            kw = dict(keys=16 if thorough else 2, blocks=5 if thorough else 2, lens="all")
+            kw = dict(keys=48 if thorough else 2, blocks=5 if thorough else 2, lens="all")
         elif fam == "RC5":
-            kw = dict(keys=120 if thorough else 10, blocks=10 if thorough else 4, lens="all")
+            kw = dict(keys=240 if thorough else 10, blocks=10 if thorough else 4, lens="all")
         elif fam == "AES":
-            kw = dict(keys=200 if thorough else 6, blocks=12 if thorough else 3, lens="all")
+            kw = dict(keys=800 if thorough else 6, blocks=12 if thorough else 3, lens="all")
         else:
-            kw = dict(keys=400 if thorough else 10, blocks=12 if thorough else 4, lens="all")
+            kw = dict(keys=1600 if thorough else 10, blocks=12 if thorough else 4, lens="all")
+        if fam == "Idea":
+            # the inverse mod 2^16 + 1 behind the decryption subkeys: a seeded slice of its domain per run, all of it when thorough
+            kw["sweep16"] = 65536 if thorough else 4096
         evs = []
         for i, (cfg_id, extra) in enumerate(cfgs):
             k = dict(kw)
@@ -139,7 +142,7 @@ def c17(tier, seed):
     for i, (cfg_id, extra) in enumerate(AES_CFGS + [(sid, {}) for sid, _ in shadow_cfgs(("AES",))]):
         if cfg_id == "aes-compact":
             continue
-        e = c.drive(cfg_id, "hazmat", n=3000 if tier == T else 30, **extra)
+        e = c.drive(cfg_id, "hazmat", n=12000 if tier == T else 30, **extra)
         evs += renumber(e, i * 10_000_000)
     c.validate(evs, mod, cfg, "haz", what="AES hazmat round functions")
     rule = ("haz events (cipher_round, equiv_inv_cipher_round, mix_columns, inv_mix_columns, 8-block parallel forms with 8 independent "
@@ -189,6 +192,8 @@ def c01(tier, seed):
         kw = dict(keys=30 if thorough else 3, blocks=8 if thorough else 2, lens="all" if thorough else "few")
         if fam:
             kw["family"] = fam
+        if cfg_id == "default":
+            kw["sweep16"] = 65536 if thorough else 8192     # IDEA subkey inversion domain (see conformance)
         kw.update(extra)
         evs += renumber(c.drive(cfg_id, "roundtrip", **kw), i * 10_000_000)
     c.validate(evs, API_MOD, API_CFG, "rt", what="round trip")
@@ -353,7 +358,7 @@ def c15(tier, seed):
     # process-global state: the same observations in differently ordered processes must agree
     for cfg_id in ("default", "dev-soft", "dev-compact"):
         traces = [(f"{cfg_id}#{perm}", c.drive(cfg_id, "order", perm=perm, keys=3 if thorough else 2)) for perm in (0, 1, 7 + seed, 99 + seed)]
-        c.validate(merge_by_run(traces), API_MOD, API_CFG, f"order-{cfg_id}", what=f"order independence across processes ({cfg_id})", shards=1)
+        c.validate(split_by_family(merge_by_run(traces)), API_MOD, API_CFG, f"order-{cfg_id}", what=f"order independence across processes ({cfg_id})")
     # fresh processes: the first AES use races on the detection cache
     nproc = 200 if thorough else 10
     tevs = []
